@@ -237,7 +237,61 @@ def _none_if_empty(vs, fn):
   return fn(vs) if vs else None
 
 
-ALL = CORE + AGG
+def _top(rows, key, k=None, reverse=False):
+  r = sorted(rows, key=key, reverse=reverse)
+  return r if k is None else r[:k]
+
+
+def _ol(pre, k):
+  rows = lambda db: db['Q']
+  return rows
+
+
+ORDER = [
+  S('order_asc', '@OrderBy(P, "col0", "col1");\nP(x, y) :- Q(x, y);\nR(x) :- P(x, y);', {'Q': 2},
+    {'P': lambda db: _top(db['Q'], lambda r: (r[0], r[1])),
+     'R': lambda db: [(x,) for (x, y) in db['Q']]}, tags=('C18',), ordered=('P',)),
+  S('order_desc_arg', '@OrderBy(P, "col0", "DESC", "col1");\n@Limit(P, 2);\nP(x, y) :- Q(x, y);\nR(x, y) :- P(x, y);',
+    {'Q': 2},
+    {'P': lambda db: _top(db['Q'], lambda r: (-r[0], r[1]), 2),
+     'R': lambda db: _top(db['Q'], lambda r: (-r[0], r[1]), 2)}, tags=('C18',), ordered=('P',)),
+  S('order_desc_inline', '@OrderBy(P, "col0 desc", "col1 desc");\n@Limit(P, 1);\nP(x, y) :- Q(x, y);\nC() += 1 :- P(x, y);',
+    {'Q': 2},
+    {'P': lambda db: _top(db['Q'], lambda r: (-r[0], -r[1]), 1),
+     'C': lambda db: [(min(len(db['Q']), 1) or None,)]}, tags=('C18',), ordered=('P',)),
+  S('limit_zero', '@OrderBy(P, "col0", "col1");\n@Limit(P, 0);\nP(x, y) :- Q(x, y);\nR(x) :- P(x, y);\n'
+    '@Limit(L0, 0);\nL0(x) :- Q(x, y);\nR0(x) :- L0(x);', {'Q': 2},
+    {'P': lambda db: [], 'R': lambda db: [], 'L0': lambda db: [], 'R0': lambda db: []}, tags=('C18',)),
+  S('limit_five', '@OrderBy(P, "col1", "col0");\n@Limit(P, 5);\nP(x, y) :- Q(x, y);\nR(y) :- P(x, y), x > 0;',
+    {'Q': 2},
+    {'P': lambda db: _top(db['Q'], lambda r: (r[1], r[0]), 5),
+     'R': lambda db: [(y,) for (x, y) in _top(db['Q'], lambda r: (r[1], r[0]), 5) if x > 0]},
+    tags=('C18',), ordered=('P',), max_rows={'quick': 3, 'thorough': 4}, domain=[0, 1]),
+  S('denotations', 'P(x, y) order_by("col0", "col1") limit(2) :- Q(x, y);\nR(x, y) :- P(x, y);\n'
+    'D(x) order_by("col0 desc") limit(1) :- Q(x, y);', {'Q': 2},
+    {'P': lambda db: _top(db['Q'], lambda r: (r[0], r[1]), 2),
+     'R': lambda db: _top(db['Q'], lambda r: (r[0], r[1]), 2),
+     'D': lambda db: _top([(x,) for (x, y) in db['Q']], lambda r: -r[0], 1)},
+    tags=('C18',), ordered=('P', 'D')),
+  S('order_union', '@OrderBy(P, "col0", "col1");\n@Limit(P, 3);\nP(x, y) :- Q(x, y);\nP(y, x) :- Q(x, y);\n'
+    'R(x) :- P(x, y);', {'Q': 2},
+    {'P': lambda db: _top(list(db['Q']) + [(y, x) for (x, y) in db['Q']], lambda r: (r[0], r[1]), 3),
+     'R': lambda db: [(x,) for (x, y) in _top(list(db['Q']) + [(y, x) for (x, y) in db['Q']],
+                                               lambda r: (r[0], r[1]), 3)]},
+    tags=('C18',), ordered=('P',)),
+  # several rules of which all but one are nil: the surviving disjunct keeps ORDER BY and LIMIT
+  S('order_one_live_disjunct', '@OrderBy(P, "col0", "col1");\n@Limit(P, 1);\nP(a, b) :- nil(a, b);\n'
+    'P(x, y) :- Q(x, y);\nR(x, y) :- P(x, y);', {'Q': 2},
+    {'P': lambda db: _top(db['Q'], lambda r: (r[0], r[1]), 1),
+     'R': lambda db: _top(db['Q'], lambda r: (r[0], r[1]), 1)}, tags=('C18',), ordered=('P',)),
+  S('order_named', '@OrderBy(P, "b", "a desc");\n@Limit(P, 2);\nP(a: x, b: y) :- Q(x, y);\nR(u) :- P(a: u);',
+    {'Q': 2},
+    {'P': lambda db: _top(db['Q'], lambda r: (r[1], -r[0]), 2),
+     'R': lambda db: [(x,) for (x, y) in _top(db['Q'], lambda r: (r[1], -r[0]), 2)]},
+    tags=('C18',), ordered=('P',)),
+]
+
+ALL = CORE + AGG + ORDER
 
 
 def by_tag(tag):
